@@ -12,6 +12,9 @@ Import ListNotations.
 Section Arnoldi.
 Context {T V : Type} (o : ops T) (vo : vops T V).
 Variable A : V -> V.
+(* defect flags of the pinned tree (true = pinned behaviour, false = the behaviour after the recorded repairs) *)
+Variable selfref : bool.     (* arnoldi_breakdown_continues: stopping test against tol*H[1,0]; remainder divided by clip(norm, tol/2) *)
+Variable zero_nan : bool.    (* gmres_zero_residual_nan: start vector divided by its norm even when that is 0 *)
 
 Definition vnrm (v : V) : T := osqrt o (vdot vo v v).
 Definition clip_min (x lo : T) : T := if oltb o x lo then lo else x.        (* np.clip(x, a_min=lo) *)
@@ -30,28 +33,40 @@ Record acol := mkacol {
   anorm : T                (* the loop variable `norm` *)
 }.
 
+(* init_arnoldi: rhs / norm (pinned), rhs / where(norm == 0, 1, norm) (repaired; norms are >= 0) *)
+Definition start_den (nrm : T) : T := if zero_nan then nrm else if oltb o (o0 o) nrm then nrm else o1 o.
 Definition init_acol (rhs : V) : acol :=
-  let nrm := vnrm rhs in let q0 := vdivs vo rhs nrm in
+  let nrm := vnrm rhs in let q0 := vdivs vo rhs (start_den nrm) in
   {| aqs := [q0]; alast := q0; ahs := []; anorm := nrm |}.
+
+(* the next basis vector: pinned  w / clip(norm, tol/2);  repaired  where(norm > tol/2, w / clip(norm, tol/2), 0) *)
+Definition next_q (tol : T) (w : V) (nrm : T) : V :=
+  let t2 := odiv o tol (oadd o (o1 o) (o1 o)) in
+  if selfref then vdivs vo w (clip_min nrm t2)
+  else if oltb o t2 nrm then vdivs vo w (clip_min nrm t2) else vscale vo (o0 o) w.
 
 Definition arnoldi_step (tol : T) (c : acol) : acol :=
   let '(w, hs) := mgs (aqs c) (A (alast c)) [] in
   let nrm := vnrm w in
-  let qn := vdivs vo w (clip_min nrm (odiv o tol (oadd o (o1 o) (o1 o)))) in
+  let qn := next_q tol w nrm in
   {| aqs := aqs c ++ [qn]; alast := qn; ahs := ahs c ++ [rev hs ++ [nrm]]; anorm := nrm |}.
 
 Definition hent (c : acol) (i j : nat) : T := nth i (nth j (ahs c) []) (o0 o).     (* H[i, j] of the zero-initialised buffer *)
 Definition ast := (list acol * nat)%type.
-(* is_not_max & any((norm > tol * H[:, 1, 0].real) | (idx <= 0)) *)
+(* xnp.norm(H[:, :, 0], axis=-1): the norm of the first column of H, i.e. ||A q_0|| *)
+Definition col0_norm (c : acol) : T :=
+  osqrt o (fold_left (fun acc h => oadd o acc (omul o (oconj o h) h)) (nth 0 (ahs c) []) (o0 o)).
+(* is_not_max & any((norm > tol * ref) | (idx <= 0)),  ref = H[:, 1, 0].real (pinned) or ||H[:, :, 0]|| (repaired) *)
+Definition stop_ref (c : acol) : T := if selfref then hent c 1 0 else col0_norm c.
 Definition arnoldi_cond (tol : T) (cap : nat) (s : ast) : bool :=
-  Nat.ltb (snd s) cap && existsb (fun c => oltb o (omul o tol (hent c 1 0)) (anorm c) || Nat.leb (snd s) 0) (fst s).
+  Nat.ltb (snd s) cap && existsb (fun c => oltb o (omul o tol (stop_ref c)) (anorm c) || Nat.leb (snd s) 0) (fst s).
 Definition arnoldi_body (tol : T) (s : ast) : ast := (map (arnoldi_step tol) (fst s), S (snd s)).
 Fixpoint arnoldi_loop (tol : T) (cap fuel : nat) (s : ast) : ast :=
   match fuel with
   | 0 => s
   | S f => if arnoldi_cond tol cap s then arnoldi_loop tol cap f (arnoldi_body tol s) else s
   end.
-(* arnoldi_fact: max_iters = min(max_iters, n) caps the loop, not the buffers *)
+(* arnoldi_fact: max_iters = min(max_iters, n) caps the loop *)
 Definition arnoldi_fact (tol : T) (m n : nat) (rhs : list V) : ast :=
   let cap := Nat.min m n in arnoldi_loop tol cap cap (map init_acol rhs, 0).
 End Arnoldi.
@@ -61,20 +76,24 @@ Context {T V : Type} (o : ops T) (vo : vops T V).
 Variable A : V -> V.
 Variable solve : list (list T) -> list T -> list T.      (* xnp.solve on one column's m x m system *)
 Variable square_H : bool.       (* defect flag gmres_square_H: true = the pinned tree (last Hessenberg row dropped) *)
+Variable pad_buf : bool.        (* arnoldi_padding: true = buffers sized by the requested max_iters; false = by min(max_iters, n) *)
+Variables (selfref zero_nan : bool).
 
 Definition tabulate {X} (k : nat) (f : nat -> X) : list X := map f (seq 0 k).
 Definition tsum (k : nat) (f : nat -> T) : T := fold_left (fun acc i => oadd o acc (f i)) (seq 0 k) (o0 o).
 
-(* y of gmres_fwd for one column, from the H buffer [h i j], beta = ||r0||, requested size m *)
-Definition gmres_y (tol : T) (m : nat) (h : nat -> nat -> T) (beta : T) : list T :=
+(* y of gmres_fwd for one column, from the H buffer [h i j], beta = ||r0||, buffer size m.
+   [mfac] is the relative cut-off of the padded-column mask: 10 * tol in the code ("zero_thresh = 10 * tol * overall_max") *)
+Definition gmres_y (mfac : T) (m : nat) (h : nat -> nat -> T) (beta : T) : list T :=
   let rows := if square_H then m else S m in
-  (* pinned tree: largest_vals = max |H| over each ROW of the square H; repaired reading: over each column of the
-     (m+1) x m matrix (the mask must be indexed like y) *)
+  (* pinned tree: largest_vals = max |H| over each ROW of the square H; repaired: over each column of the (m+1) x m
+     matrix (the mask must be indexed like y) *)
   let largest := tabulate m (fun i => lmax o (if square_H then tabulate m (fun j => oabs o (h i j))
                                                 else tabulate rows (fun k => oabs o (h k i)))) in
   let overall := lmax o largest in
-  let thresh := omul o (omul o (ofnat o 10) tol) overall in
-  let pad := map (fun l => oltb o l thresh) largest in
+  let thresh := omul o mfac overall in
+  (* largest_vals < zero_thresh (pinned), <= (repaired, so that an all-zero H is masked) *)
+  let pad := map (fun l => if zero_nan then oltb o l thresh else negb (oltb o thresh l)) largest in
   let G := tabulate m (fun i => tabulate m (fun j =>
              let g := tsum rows (fun k => omul o (oconj o (h k i)) (h k j)) in
              if Nat.eqb i j && nth i pad false then oadd o g (o1 o) else g)) in
@@ -89,15 +108,16 @@ Definition lincomb (qs : list V) (y : list T) (x0 : V) : V :=
   | (y0, q0) :: rest => vadd vo x0 (fold_left (fun acc yq => vadd vo acc (vscale vo (fst yq) (snd yq))) rest (vscale vo y0 q0))
   end.
 
-Definition gmres_col (tol : T) (m : nat) (x0 r0 : V) (c : acol (T:=T) (V:=V)) : V :=
-  let y := gmres_y tol m (hent o c) (vnrm o vo r0) in
+Definition gmres_col (mfac : T) (m : nat) (x0 r0 : V) (c : acol (T:=T) (V:=V)) : V :=
+  let y := gmres_y mfac m (hent o c) (vnrm o vo r0) in
   lincomb (firstn m (aqs c)) y x0.
 
 Record gres := mkgres { gsol : list V; gsteps : nat }.     (* gsteps = number of Arnoldi steps = products with A minus one *)
-Definition gmres_fwd (tol : T) (m n : nat) (bs x0s : list V) : gres :=
+Definition gmres_fwd (tol mfac : T) (m n : nat) (bs x0s : list V) : gres :=
   let rs := map (fun bx => vsub vo (fst bx) (A (snd bx))) (combine bs x0s) in      (* res = rhs - A @ x0 *)
-  let s := arnoldi_fact o vo A tol m n rs in
-  {| gsol := map (fun t => gmres_col tol m (fst (fst t)) (snd (fst t)) (snd t)) (combine (combine x0s rs) (fst s));
+  let s := arnoldi_fact o vo A selfref zero_nan tol m n rs in
+  let mb := if pad_buf then m else Nat.min m n in                                    (* size of the H and Q buffers *)
+  {| gsol := map (fun t => gmres_col mfac mb (fst (fst t)) (snd (fst t)) (snd t)) (combine (combine x0s rs) (fst s));
      gsteps := snd s |}.
 End GMRES.
 
